@@ -64,6 +64,15 @@ def _check(assertions, timeout_ms, logic=None):
         CROSS["seen"] += 1
         if CROSS["seen"] <= CROSS["first"] or CROSS["seen"] % CROSS["every"] == 0:
             _second_opinion(s, rs)
+    if rs == "sat" and Ctx.cur is not None and Ctx.cur.soft:
+        # witness steering only: the verdict is already 'sat'; look for a model that also satisfies the preferences registered on this path
+        s.push()
+        s.add(*Ctx.cur.soft)
+        s.set("timeout", min(int(timeout_ms), 5000))
+        if str(s.check()) != "sat":
+            s.pop()
+            s.set("timeout", int(timeout_ms))
+            s.check()
     return rs, s
 
 
